@@ -1336,6 +1336,353 @@ Proof.
   rewrite !kids_app. reflexivity.
 Qed.
 
+(* ================================================================== the specification depends on environments only through lookups *)
+Definition env_eq (e e' : env) : Prop := forall p, env_get e p = env_get e' p.
+Lemma env_set_ext e e' p v : env_eq e e' -> env_eq (env_set e p v) (env_set e' p v).
+Proof. intros H q. rewrite !env_get_set. now rewrite H. Qed.
+Lemma env_add_ext d : forall e e', env_eq e e' -> env_eq (env_add e d) (env_add e' d).
+Proof.
+  unfold env_add. induction d as [|x d IH]; intros e e' H; [exact H|]. cbn [fold_left]. apply IH. now apply env_set_ext.
+Qed.
+Lemma render_ext out : forall g g' r r', (forall p, g p = g' p) -> env_eq r r' -> env_eq (render g out r) (render g' out r').
+Proof.
+  unfold render. induction out as [|p out IH]; intros g g' r r' Hg H; [exact H|]. cbn [fold_left]. apply IH; [assumption|].
+  rewrite Hg. now apply env_set_ext.
+Qed.
+Lemma attr_uri_ext e e' a : env_eq e e' -> attr_uri e a = attr_uri e' a.
+Proof. intros H. unfold attr_uri. destruct (a3_space a); [reflexivity|]. now rewrite H. Qed.
+Lemma xattr_lt_ext e e' a b : env_eq e e' -> xattr_lt e a b = xattr_lt e' a b.
+Proof. intros H. unfold xattr_lt. now rewrite !(attr_uri_ext e e' _ H). Qed.
+Lemma flat_map_ext_in {A B} (f g : A -> list B) l : (forall x, In x l -> f x = g x) -> flat_map f l = flat_map g l.
+Proof.
+  induction l as [|x l IH]; intros H; [reflexivity|]. cbn. rewrite (H x (or_introl eq_refl)), IH; [reflexivity|].
+  intros y Hy. apply H. now right.
+Qed.
+
+Theorem exc_node_ext n : forall e e' r r', env_eq e e' -> env_eq r r' -> exc_node e r n = exc_node e' r' n.
+Proof.
+  induction n as [s t a ch IH| | | |] using node_ind'; intros e e' r r' He Hr; try reflexivity.
+  cbn [exc_node].
+  assert (Hi : env_eq (env_add e (own_decls a)) (env_add e' (own_decls a))) by now apply env_add_ext.
+  set (i1 := env_add e (own_decls a)) in *. set (i2 := env_add e' (own_decls a)) in *.
+  assert (HF : filter (fun p => negb (bytes_eqb (env_get i1 p) (env_get r p))) (utilized s a) =
+               filter (fun p => negb (bytes_eqb (env_get i2 p) (env_get r' p))) (utilized s a)).
+  { apply filter_ext. intros p. now rewrite Hi, Hr. }
+  rewrite <- HF. set (out := isort prefix_lt _).
+  f_equal. f_equal. f_equal; [|f_equal].
+  - apply flat_map_ext'. intros p. now rewrite Hi.
+  - f_equal. apply isort_ext. intros x y _ _. now apply xattr_lt_ext.
+  - f_equal. f_equal. apply flat_map_ext_in. intros c Hc. rewrite Forall_forall in IH. apply IH; [assumption|assumption|].
+    apply (render_ext out (env_get i1) (env_get i2) r r'); [exact Hi | exact Hr].
+Qed.
+
+(* ================================================================== lexicographic order on pairs of byte strings *)
+Definition lex_lt (x y : bytes * bytes) : bool :=
+  if bytes_eqb (fst x) (fst y) then str_ltb (snd x) (snd y) else str_ltb (fst x) (fst y).
+Lemma lex_irrefl x : lex_lt x x = false.
+Proof. unfold lex_lt. rewrite beq_refl. apply str_ltb_irrefl. Qed.
+Lemma lex_trans x y z : lex_lt x y = true -> lex_lt y z = true -> lex_lt x z = true.
+Proof.
+  unfold lex_lt. destruct x as [a b], y as [c d], z as [e f]. cbn [fst snd]. intros H1 H2.
+  destruct (bytes_dec a c) as [->|Hac].
+  - rewrite beq_refl in H1. destruct (bytes_dec c e) as [->|Hce].
+    + rewrite beq_refl in *. eapply str_ltb_trans; eassumption.
+    + rewrite (proj2 (beq_false c e) Hce) in *. exact H2.
+  - rewrite (proj2 (beq_false a c) Hac) in H1. destruct (bytes_dec c e) as [->|Hce].
+    + rewrite beq_refl in H2. rewrite (proj2 (beq_false a e) Hac). exact H1.
+    + rewrite (proj2 (beq_false c e) Hce) in H2. pose proof (str_ltb_trans _ _ _ H1 H2) as T.
+      destruct (bytes_dec a e) as [->|Hae].
+      * rewrite str_ltb_irrefl in T. discriminate.
+      * rewrite (proj2 (beq_false a e) Hae). exact T.
+Qed.
+Lemma lex_total x y : x <> y -> lex_lt x y = true \/ lex_lt y x = true.
+Proof.
+  unfold lex_lt. destruct x as [a b], y as [c d]. cbn [fst snd]. intros H. rewrite (beq_sym c a).
+  destruct (bytes_eqb a c) eqn:E.
+  - apply beq_iff in E. subst. apply str_ltb_total. congruence.
+  - apply beq_false in E. now apply str_ltb_total.
+Qed.
+
+(* ================================================================== attribute order does not matter *)
+Lemma existsb_perm {A} (f : A -> bool) l l' : Permutation l l' -> existsb f l = existsb f l'.
+Proof.
+  intros P. destruct (existsb f l) eqn:E.
+  - apply existsb_exists in E as (x & Hx & Fx). symmetry. apply existsb_exists. exists x. split; [|assumption].
+    now apply (Permutation_in _ P).
+  - symmetry. apply existsb_false_iff. intros x Hx. rewrite existsb_false_iff in E. apply E.
+    apply (Permutation_in _ (Permutation_sym P)). exact Hx.
+Qed.
+Lemma filter_perm {A} (f : A -> bool) l l' : Permutation l l' -> Permutation (filter f l) (filter f l').
+Proof.
+  induction 1; cbn.
+  - constructor.
+  - destruct (f x); [now constructor | assumption].
+  - destruct (f x), (f y); try reflexivity. apply perm_swap.
+  - etransitivity; eassumption.
+Qed.
+Lemma nodup_map_inj {A B} (f : A -> B) l a b : NoDup (map f l) -> In a l -> In b l -> f a = f b -> a = b.
+Proof.
+  induction l as [|x l IH]; intros ND Ha Hb E; [contradiction|]. cbn [map] in ND. inversion ND as [|? ? Nin ND']; subst.
+  destruct Ha as [->|Ha], Hb as [->|Hb].
+  - reflexivity.
+  - exfalso. apply Nin. rewrite E. now apply in_map.
+  - exfalso. apply Nin. rewrite <- E. now apply in_map.
+  - now apply IH.
+Qed.
+
+Theorem spec_attr_order_invariant e r s t a a' ch :
+  Permutation a a' ->
+  NoDup (map fst (own_decls a)) ->
+  NoDup (map (fun x => (attr_uri (env_add e (own_decls a)) x, a3_key x)) (plain_attrs a)) ->
+  exc_node e r (Elem s t a ch) = exc_node e r (Elem s t a' ch).
+Proof.
+  intros P ND NU. cbn [exc_node].
+  assert (Pd : Permutation (own_decls a) (own_decls a')).
+  { unfold own_decls. apply Permutation_map. now apply filter_perm. }
+  assert (Pp : Permutation (plain_attrs a) (plain_attrs a')) by (unfold plain_attrs; now apply filter_perm).
+  assert (ND' : NoDup (map fst (own_decls a'))).
+  { eapply Permutation_NoDup; [|exact ND]. now apply Permutation_map. }
+  assert (Hi : env_eq (env_add e (own_decls a)) (env_add e (own_decls a'))).
+  { intros p. destruct (in_dec bytes_dec p (map fst (own_decls a))) as [Hin|Hn].
+    - apply in_fst_exists in Hin as (v & Hv). rewrite (env_add_in _ e p v ND Hv).
+      symmetry. apply env_add_in; [assumption|]. now apply (Permutation_in _ Pd).
+    - rewrite (env_add_notin _ e p Hn). symmetry. apply env_add_notin. intros G. apply Hn.
+      apply (Permutation_in _ (Permutation_sym (Permutation_map fst Pd))). exact G. }
+  set (i1 := env_add e (own_decls a)) in *. set (i2 := env_add e (own_decls a')) in *.
+  assert (HU : forall p, usesP s a p = usesP s a' p).
+  { intros p. unfold usesP. f_equal. f_equal. now apply existsb_perm. }
+  assert (HO : isort prefix_lt (filter (fun p => negb (bytes_eqb (env_get i1 p) (env_get r p))) (utilized s a)) =
+               isort prefix_lt (filter (fun p => negb (bytes_eqb (env_get i2 p) (env_get r p))) (utilized s a'))).
+  { apply (isort_unique prefix_lt (fun _ => True)).
+    - intros x _. apply str_ltb_irrefl.
+    - intros x y z _ _ _. apply str_ltb_trans.
+    - intros x y _ _. apply str_ltb_total.
+    - apply Forall_forall; auto.
+    - apply Forall_forall; auto.
+    - apply NoDup_filter, utilized_nodup.
+    - apply NoDup_filter, utilized_nodup.
+    - intros p. rewrite !filter_In, !utilized_in, HU, Hi. reflexivity. }
+  rewrite <- HO. set (out := isort prefix_lt _).
+  assert (HA : isort (xattr_lt i1) (plain_attrs a) = isort (xattr_lt i2) (plain_attrs a')).
+  { rewrite (isort_ext (xattr_lt i2) (xattr_lt i1) (plain_attrs a')) by (intros; symmetry; now apply xattr_lt_ext).
+    set (key := fun x : attr => (attr_uri i1 x, a3_key x)).
+    assert (XL : forall x y, xattr_lt i1 x y = lex_lt (key x) (key y)) by reflexivity.
+    apply (isort_unique (xattr_lt i1) (fun x => In x (plain_attrs a))).
+    - intros x _. rewrite XL. apply lex_irrefl.
+    - intros x y z _ _ _. rewrite !XL. apply lex_trans.
+    - intros x y Hx Hy Hxy. rewrite !XL. apply lex_total. intros E. apply Hxy. exact (nodup_map_inj key _ x y NU Hx Hy E).
+    - apply Forall_forall; auto.
+    - apply Forall_forall. intros x Hx. apply (Permutation_in _ (Permutation_sym Pp)). exact Hx.
+    - apply (NoDup_map_inv key). exact NU.
+    - eapply Permutation_NoDup; [exact Pp|]. apply (NoDup_map_inv key). exact NU.
+    - intros x. split; apply Permutation_in; [exact Pp | now apply Permutation_sym]. }
+  rewrite <- HA.
+  f_equal. f_equal. f_equal; [|f_equal].
+  - apply flat_map_ext'. intros p. now rewrite Hi.
+  - f_equal. f_equal. apply flat_map_ext'. intros c. apply exc_node_ext; [exact Hi|].
+    apply (render_ext out (env_get i1) (env_get i2) r r); [exact Hi | intros p; reflexivity].
+Qed.
+
+(* ================================================================== sort.Slice: any correct sort gives the model's list *)
+Definition rank (a : attr) : Z * (bytes * bytes) :=
+  ((if bytes_eqb (a3_space a) [] && bytes_eqb (a3_key a) s_xmlns then 0 else if bytes_eqb (a3_space a) s_xmlns then 1 else 2),
+   (a3_space a, a3_key a)).
+Definition rank_lt (r1 r2 : Z * (bytes * bytes)) : bool :=
+  (fst r1 <? fst r2) || ((fst r1 =? fst r2) && lex_lt (snd r1) (snd r2)).
+Lemma rank_irrefl r : rank_lt r r = false.
+Proof. unfold rank_lt. rewrite lex_irrefl. lia. Qed.
+Lemma rank_trans a b c : rank_lt a b = true -> rank_lt b c = true -> rank_lt a c = true.
+Proof.
+  unfold rank_lt. intros H1 H2. apply orb_true_iff in H1. apply orb_true_iff in H2. apply orb_true_iff.
+  destruct H1 as [H1|H1], H2 as [H2|H2].
+  - left. lia.
+  - apply andb_true_iff in H2 as [E _]. left. lia.
+  - apply andb_true_iff in H1 as [E _]. left. lia.
+  - apply andb_true_iff in H1 as [E1 L1]. apply andb_true_iff in H2 as [E2 L2]. right. apply andb_true_iff.
+    split; [lia|]. eapply lex_trans; eassumption.
+Qed.
+Lemma rank_total a b : a <> b -> rank_lt a b = true \/ rank_lt b a = true.
+Proof.
+  unfold rank_lt. destruct a as [ca pa], b as [cb pb]. cbn [fst snd]. intros H.
+  destruct (Z.lt_trichotomy ca cb) as [L|[E|L]].
+  - left. apply orb_true_iff. left. lia.
+  - subst. assert (Hp : pa <> pb) by congruence. destruct (lex_total pa pb Hp) as [G|G]; [left|right];
+      apply orb_true_iff; right; apply andb_true_iff; split; try lia; assumption.
+  - right. apply orb_true_iff. left. lia.
+Qed.
+Lemma attr_lt_rank x y :
+  (a3_space x, a3_key x) <> (a3_space y, a3_key y) -> attr_lt x y = rank_lt (rank x) (rank y).
+Proof.
+  intros Hn. rewrite attr_lt_unfold. unfold rank, rank_lt, lex_lt. cbn [fst snd].
+  destruct (bytes_eqb (a3_space x) [] && bytes_eqb (a3_key x) s_xmlns) eqn:Dx.
+  - destruct (bytes_eqb (a3_space y) [] && bytes_eqb (a3_key y) s_xmlns) eqn:Dy.
+    + exfalso. apply Hn. apply andb_true_iff in Dx as [A B]. apply andb_true_iff in Dy as [C D].
+      apply beq_iff in A, B, C, D. congruence.
+    + destruct (bytes_eqb (a3_space y) s_xmlns); reflexivity.
+  - destruct (bytes_eqb (a3_space y) [] && bytes_eqb (a3_key y) s_xmlns) eqn:Dy.
+    + destruct (bytes_eqb (a3_space x) s_xmlns); reflexivity.
+    + destruct (bytes_eqb (a3_space x) s_xmlns) eqn:Nx, (bytes_eqb (a3_space y) s_xmlns) eqn:Ny; cbn [negb andb orb Z.ltb Z.eqb Z.compare Pos.compare Pos.compare_cont Pos.eqb].
+      * destruct (bytes_eqb (a3_space x) (a3_space y)); reflexivity.
+      * reflexivity.
+      * reflexivity.
+      * destruct (bytes_eqb (a3_space x) (a3_space y)); reflexivity.
+Qed.
+
+Lemma sorted_weaken {A} (P Q : A -> A -> Prop) l :
+  NoDup l -> (forall x y, In x l -> In y l -> x <> y -> P x y -> Q x y) -> StronglySorted P l -> StronglySorted Q l.
+Proof.
+  induction l as [|x l IH]; intros ND H S; [constructor|]. inversion S as [|? ? S' F]; subst. inversion ND as [|? ? Nin ND']; subst.
+  constructor.
+  - apply IH; try assumption. intros a b Ha Hb. apply H; now right.
+  - rewrite Forall_forall in *. intros y Hy. apply H; [now left | now right | intros ->; contradiction | now apply F].
+Qed.
+
+(* Go's sort.Slice promises only: afterwards no later element is less than an earlier one.  With distinct attribute
+   names that pins the result down, whatever algorithm is used (the real one is an unstable pattern-defeating quicksort). *)
+Theorem sort_slice_unique l l' :
+  NoDup (attr_names l) -> Permutation l' l -> StronglySorted (fun x y => attr_lt y x = false) l' -> l' = isort attr_lt l.
+Proof.
+  intros NDn P S.
+  assert (ND : NoDup l) by (apply (NoDup_map_inv (fun a : attr => (a3_space a, a3_key a))); exact NDn).
+  assert (ND' : NoDup l') by (eapply Permutation_NoDup; [apply Permutation_sym; exact P | exact ND]).
+  set (lt2 := fun x y : attr => rank_lt (rank x) (rank y)).
+  assert (Hname : forall x y, In x l -> In y l -> x <> y -> (a3_space x, a3_key x) <> (a3_space y, a3_key y)).
+  { intros x y Hx Hy Hxy E. apply Hxy. exact (nodup_map_inj (fun a : attr => (a3_space a, a3_key a)) l x y NDn Hx Hy E). }
+  rewrite (isort_ext_nodup attr_lt lt2 l ND) by (intros x y Hx Hy Hxy; apply attr_lt_rank; now apply Hname).
+  assert (Hrank : forall x y, In x l -> In y l -> x <> y -> rank x <> rank y).
+  { intros x y Hx Hy Hxy E. apply (Hname x y Hx Hy Hxy). unfold rank in E. now inversion E. }
+  apply (sorted_unique lt2 (fun x => In x l)).
+  - intros a _. apply rank_irrefl.
+  - intros a b c _ _ _. apply rank_trans.
+  - apply Forall_forall. intros x Hx. now apply (Permutation_in _ P).
+  - apply Forall_forall. intros x Hx. now apply (proj1 (isort_in lt2 l x)).
+  - apply (sorted_weaken (fun x y => attr_lt y x = false) (ltP lt2) l' ND'); [|exact S].
+    intros x y Hx Hy Hxy H. apply (Permutation_in _ P) in Hx. apply (Permutation_in _ P) in Hy.
+    rewrite attr_lt_rank in H by (apply Hname; auto). unfold ltP, lt2.
+    destruct (rank_total (rank x) (rank y) (Hrank x y Hx Hy Hxy)) as [G|G]; [exact G | congruence].
+  - apply (isort_sorted lt2 (fun x => In x l)).
+    + intros a b c _ _ _. apply rank_trans.
+    + intros a b Ha Hb Hab. apply rank_total. now apply Hrank.
+    + apply Forall_forall. auto.
+    + exact ND.
+  - intros x. rewrite isort_in. split; apply Permutation_in; [exact P | now apply Permutation_sym].
+Qed.
+
+(* ================================================================== consequences on K *)
+Theorem relic_attr_order_invariant_on_K ctx s t a a' ch :
+  inK ctx (Elem s t a ch) = true -> inK ctx (Elem s t a' ch) = true -> Permutation a a' ->
+  NoDup (map (fun x => (attr_uri (env_add (ctx_env ctx) (own_decls a)) x, a3_key x)) (plain_attrs a)) ->
+  relic_c14n ctx (Elem s t a ch) = relic_c14n ctx (Elem s t a' ch).
+Proof.
+  intros K1 K2 P NU. rewrite (relic_eq_spec_on_K _ _ K1), (relic_eq_spec_on_K _ _ K2). unfold exc_c14n.
+  apply spec_attr_order_invariant; try assumption.
+  unfold inK, K_codes in K1. destruct (ctx_codes ctx ++ k_codes (ctx_env ctx) [] (Elem s t a ch)) eqn:E; [|discriminate].
+  apply app_eq_nil in E as [_ E]. apply k_elem in E as (K6 & K5 & _). apply own_decls_nodup; [assumption|]. now apply nodup_b_NoDup.
+Qed.
+
+(* ================================================================== unused namespace declarations do not matter *)
+(* does the subtree visibly utilise prefix q under the binding that reaches its root? *)
+Fixpoint uses_in_subtree (q : bytes) (n : node) : bool :=
+  match n with
+  | Elem s t a ch => usesP s a q || (negb (has_decl q a) && existsb (uses_in_subtree q) ch)
+  | _ => false
+  end.
+
+Lemma render_ext_in out : forall g g' r r', (forall p, In p out -> g p = g' p) -> env_eq r r' -> env_eq (render g out r) (render g' out r').
+Proof.
+  unfold render. induction out as [|p out IH]; intros g g' r r' Hg H; [exact H|]. cbn [fold_left]. apply IH.
+  - intros x Hx. apply Hg. now right.
+  - rewrite (Hg p (or_introl eq_refl)). now apply env_set_ext.
+Qed.
+Lemma env_add_off d q : forall e e', (forall p, p <> q -> env_get e p = env_get e' p) ->
+  forall p, p <> q -> env_get (env_add e d) p = env_get (env_add e' d) p.
+Proof.
+  unfold env_add. induction d as [|x d IH]; intros e e' H p Hp; [now apply H|]. cbn [fold_left]. apply IH; [|assumption].
+  intros p' Hp'. rewrite !env_get_set. destruct (bytes_eqb p' (fst x)); [reflexivity | now apply H].
+Qed.
+
+Lemma env_add_shadow d q : forall e e', In q (map fst d) -> env_get (env_add e d) q = env_get (env_add e' d) q.
+Proof.
+  induction d as [|x d IH]; intros e e' H; [contradiction|]. unfold env_add. cbn [fold_left].
+  fold (env_add (env_set e (fst x) (snd x)) d). fold (env_add (env_set e' (fst x) (snd x)) d).
+  destruct (in_dec bytes_dec q (map fst d)) as [I|N]; [now apply IH|].
+  rewrite !(env_add_notin d _ q N), !env_get_set. destruct H as [->|H]; [|contradiction]. now rewrite beq_refl.
+Qed.
+Lemma exc_elem_ext s t a ch e e' r r' :
+  env_eq (env_add e (own_decls a)) (env_add e' (own_decls a)) -> env_eq r r' ->
+  exc_node e r (Elem s t a ch) = exc_node e' r' (Elem s t a ch).
+Proof.
+  intros Hi Hr. cbn [exc_node].
+  set (i1 := env_add e (own_decls a)) in *. set (i2 := env_add e' (own_decls a)) in *.
+  assert (HF : filter (fun p => negb (bytes_eqb (env_get i1 p) (env_get r p))) (utilized s a) =
+               filter (fun p => negb (bytes_eqb (env_get i2 p) (env_get r' p))) (utilized s a)).
+  { apply filter_ext. intros p. now rewrite Hi, Hr. }
+  rewrite <- HF. set (out := isort prefix_lt _).
+  f_equal. f_equal. f_equal; [|f_equal].
+  - apply flat_map_ext'. intros p. now rewrite Hi.
+  - f_equal. apply isort_ext. intros x y _ _. now apply xattr_lt_ext.
+  - f_equal. f_equal. apply flat_map_ext'. intros c. apply exc_node_ext; [assumption|].
+    apply (render_ext out (env_get i1) (env_get i2) r r'); [exact Hi | exact Hr].
+Qed.
+
+Theorem exc_node_irrelevant q n : forall e e' r,
+  (forall p, p <> q -> env_get e p = env_get e' p) -> uses_in_subtree q n = false ->
+  exc_node e r n = exc_node e' r n.
+Proof.
+  induction n as [s t a ch IH| | | |] using node_ind'; intros e e' r He Hu; try reflexivity.
+  cbn [uses_in_subtree] in Hu. apply orb_false_iff in Hu as [Hu Hc].
+  destruct (has_decl q a) eqn:Hd.
+  - (* redeclared here: the environments below agree everywhere *)
+    apply exc_elem_ext; [|intros p; reflexivity]. intros p. destruct (bytes_dec p q) as [->|Hp]; [|now apply (env_add_off _ q)].
+    apply env_add_shadow. now apply has_decl_in.
+  - cbn [andb negb] in Hc.
+    cbn [exc_node].
+    assert (Hi : forall p, p <> q -> env_get (env_add e (own_decls a)) p = env_get (env_add e' (own_decls a)) p) by now apply (env_add_off _ q).
+    set (i1 := env_add e (own_decls a)) in *. set (i2 := env_add e' (own_decls a)) in *.
+    assert (Hq : forall p, In p (utilized s a) -> p <> q).
+    { intros p Hp ->. apply utilized_in in Hp as [Hp _]. congruence. }
+    assert (HF : filter (fun p => negb (bytes_eqb (env_get i1 p) (env_get r p))) (utilized s a) =
+                 filter (fun p => negb (bytes_eqb (env_get i2 p) (env_get r p))) (utilized s a)).
+    { apply filter_ext_in'. intros p Hp. now rewrite (Hi p (Hq p Hp)). }
+    rewrite <- HF. set (out := isort prefix_lt _).
+    assert (Hout : forall p, In p out -> p <> q).
+    { intros p Hp. apply Hq. unfold out in Hp. apply (proj1 (isort_in _ _ _)) in Hp. now apply filter_In in Hp as [Hp _]. }
+    assert (Hattr : forall x, In x (plain_attrs a) -> attr_uri i1 x = attr_uri i2 x).
+    { intros x Hx. unfold attr_uri. destruct (a3_space x) as [|z sp] eqn:Es; [reflexivity|].
+      destruct (bytes_eqb (z :: sp) s_xml); [reflexivity|]. apply Hi. intros E.
+      unfold usesP in Hu. apply orb_false_iff in Hu as [_ Hu]. rewrite <- E in Hu. cbn [negb andb] in Hu.
+      change (bytes_eqb (z :: sp) []) with false in Hu. cbn [negb andb] in Hu. rewrite existsb_false_iff in Hu.
+      specialize (Hu x Hx). rewrite Es, beq_refl in Hu. discriminate. }
+    f_equal. f_equal. f_equal; [|f_equal].
+    + apply flat_map_ext_in. intros p Hp. now rewrite (Hi p (Hout p Hp)).
+    + f_equal. apply isort_ext. intros x y Hx Hy. unfold xattr_lt. now rewrite (Hattr x Hx), (Hattr y Hy).
+    + f_equal. f_equal. apply flat_map_ext_in. intros c Hc'. rewrite Forall_forall in IH.
+      rewrite existsb_false_iff in Hc. rewrite (IH c Hc' i1 i2 _ Hi (Hc c Hc')).
+      apply exc_node_ext; [intros p; reflexivity|].
+      apply (render_ext_in out (env_get i1) (env_get i2) r r); [|intros p; reflexivity]. intros p Hp. apply Hi. now apply Hout.
+Qed.
+
+Lemma own_decls_cons_decl d a : own_decls (decl_attr d :: a) = d :: own_decls a.
+Proof.
+  unfold own_decls. cbn [filter]. rewrite decl_attr_is_decl. cbn [map]. rewrite decl_attr_prefix, decl_attr_val. now destruct d.
+Qed.
+Lemma plain_cons_decl_attr d a : plain_attrs (decl_attr d :: a) = plain_attrs a.
+Proof. unfold plain_attrs. cbn [filter]. now rewrite decl_attr_is_decl. Qed.
+Lemma exc_add_decl e r s t a ch d :
+  exc_node e r (Elem s t (decl_attr d :: a) ch) = exc_node (env_set e (fst d) (snd d)) r (Elem s t a ch).
+Proof.
+  cbn [exc_node]. unfold utilized. rewrite own_decls_cons_decl, !plain_cons_decl_attr. reflexivity.
+Qed.
+(* a namespace declaration that nothing below visibly utilises can be added or removed *)
+Theorem spec_unused_decl_invariant e r s t a ch q v :
+  has_decl q a = false -> usesP s a q = false -> existsb (uses_in_subtree q) ch = false ->
+  exc_node e r (Elem s t (decl_attr (q, v) :: a) ch) = exc_node e r (Elem s t a ch).
+Proof.
+  intros Hd Hu Hc. rewrite exc_add_decl. cbn [fst snd]. apply (exc_node_irrelevant q).
+  - intros p Hp. rewrite env_get_set. now rewrite (proj2 (beq_false p q) Hp).
+  - cbn [uses_in_subtree]. now rewrite Hu, Hd, Hc.
+Qed.
+
 (* ================================================================== ECDSA r||s *)
 Lemma bitlen_nonneg n : 0 <= bitlen n.
 Proof. unfold bitlen. destruct (n <=? 0) eqn:E; [lia|]. pose proof (Z.log2_nonneg n). lia. Qed.
